@@ -167,6 +167,24 @@ def run(ctx, chk):
     chk.extra["constructor_table"] = {k: dict(type=v.get("type"), data=v["data"]) for k, v in ctors.items()}
     chk.extra["types_whose_data_may_be_released"] = sorted(freeable_types)
 
+    def item_types(f, block, item_path, depth=0):
+        """types the item at `item_path` may have at `block`; for a parameter of an assertion-less internal helper the
+        facts established at its call sites are inherited"""
+        root, steps = item_path
+        own = [a for a in H.get(f.name, []) if root[0] == "arg" and a.get("param") == root[1] and a.get("entry", True)]
+        if root[0] == "arg" and not steps and f.internal and not own and depth < 3:
+            acc = set()
+            found = False
+            for g in prog.lib_funcs():
+                for c in g.calls(f.name):
+                    if root[1] < len(c.operands):
+                        found = True
+                        acc |= item_types(g, c.block, apath(c.operands[root[1]]), depth + 1)
+            if found:
+                local = {p[0] for p in IF.possible(f, block, item_path)}
+                return acc & local
+        return {p[0] for p in IF.possible(f, block, item_path)}
+
     def classify(f, v, depth=0):
         """returns (ok, why)"""
         v0 = strip_casts(v)
@@ -206,8 +224,7 @@ def run(ctx, chk):
                 # which item, and which types can it have here (dominating type tests + the function's own
                 # harvested CBOR_ASSERT precondition)?
                 item_path = (root, steps[:-1])
-                pts = IF.possible(f, cur_call.block, item_path)
-                tys = sorted({p[0] for p in pts})
+                tys = sorted(item_types(f, cur_call.block, item_path))
                 bad = [t for t in tys if t not in freeable_types]
                 if bad:
                     names = [n for n, v in types.items() if v in bad]
